@@ -88,12 +88,19 @@ theorem cmono_block_succ (defs : List Def) (k : Nat) (ih : CMonoAt defs k) :
   | nil => unfold checkBlock at h ⊢; exact h
   | cons st rest =>
     cases rest with
-    | nil => unfold checkBlock at h ⊢; exact ih.stmt _ _ _ h
+    | nil =>
+      unfold checkBlock at h ⊢
+      split at h
+      · rename_i hd; simp only [hd, if_true]; exact ih.stmt _ _ _ h
+      · cases h
     | cons st2 rest2 =>
       unfold checkBlock at h ⊢
-      simp only [Option.bind_eq_some_iff] at h ⊢
-      obtain ⟨r1, h1, h2⟩ := h
-      exact ⟨r1, ih.stmt _ _ _ h1, ih.block _ _ _ h2⟩
+      split at h
+      · rename_i hd
+        simp only [hd, if_true, Option.bind_eq_some_iff] at h ⊢
+        obtain ⟨r1, h1, h2⟩ := h
+        exact ⟨r1, ih.stmt _ _ _ h1, ih.block _ _ _ h2⟩
+      · cases h
 
 theorem cmono_catches_succ (defs : List Def) (k : Nat) (ih : CMonoAt defs k) :
     ∀ c cs t, checkCatches defs (k + 1) c cs = some t → checkCatches defs (k + 2) c cs = some t := by
